@@ -38,4 +38,33 @@ theorem getString_sanitised (L : Obj.Libs Time Url) (o : List (Str × JVal)) (k 
   rw [Gen17.getString_eq] at h
   exact C17.getString_sanitised o k v h
 
+/-- The translated `GetNumber` (floating-point operations on the bit pattern) returns `n` iff the
+    value at the key is a double whose exact value is the natural number `n < 2^64`: never a
+    rounded, truncated or wrapped number. -/
+theorem getNumber_exact (L : Obj.Libs Time Url) (o : List (Str × JVal)) (k : Str) (n : Nat)
+    (hbits : ∀ bits, Obj.lookup o k = some (.num bits) → bits < 2 ^ 64) :
+    GenObject.GetNumber L o k = .ok n ↔
+      ∃ bits, Obj.lookup o k = some (.num bits) ∧ C17.Denotes bits n ∧ n < 2 ^ 64 := by
+  rw [Gen17.getNumber_eq L o k hbits]
+  exact C17.getNumber_exact o k n
+
+/-- … and reports "absent" exactly for a missing key or `null`. -/
+theorem getNumber_absent (L : Obj.Libs Time Url) (o : List (Str × JVal)) (k : Str)
+    (hbits : ∀ bits, Obj.lookup o k = some (.num bits) → bits < 2 ^ 64) :
+    GenObject.GetNumber L o k = .error .absent ↔
+      (Obj.lookup o k = none ∨ Obj.lookup o k = some .null) := by
+  rw [Gen17.getNumber_eq L o k hbits]
+  exact C17.getNumber_absent o k
+
+/-- Non-vacuity: 25.0 is 25, -5.0 and 2^64 are refused (bit patterns of the doubles). -/
+example : (match GenObject.GetNumber (Time := Unit) (Url := Unit) ⟨fun _ => none, fun _ => none⟩
+    [(['k'], .num 0x4039000000000000)] ['k'] with | .ok n => n == 25 | .error _ => false) = true := by
+  decide +kernel
+example : (match GenObject.GetNumber (Time := Unit) (Url := Unit) ⟨fun _ => none, fun _ => none⟩
+    [(['k'], .num 0x43F0000000000000)] ['k'] with | .ok _ => false | .error e => e == .wrong) = true := by
+  decide +kernel
+example : (match GenObject.GetNumber (Time := Unit) (Url := Unit) ⟨fun _ => none, fun _ => none⟩
+    [(['k'], .num 0xC014000000000000)] ['k'] with | .ok _ => false | .error e => e == .wrong) = true := by
+  decide +kernel
+
 end GenT17
